@@ -3,7 +3,7 @@
    descriptor inheritance by child processes, Python's stream buffering and UTF-8 decoding are
    assumptions of the model (a write at a captured level lands in the capture's buffer while
    it is active) and are exercised by the correspondence check only. *)
-From Verif Require Import Base.Prelude Base.Pluggy Model.Capture Proofs.CaptureProofs Proofs.FactsHooks Gen.HookFacts.
+From Verif Require Import Base.Prelude Base.Pluggy Model.Capture Proofs.CaptureProofs Proofs.CaptureRun Proofs.FactsHooks Gen.HookFacts.
 
 (* for any sequence of tasks, any writes, any method: the sections are exactly, per task, phase
    and stream, the concatenation in order of what that task wrote at a captured level in that
@@ -48,6 +48,43 @@ Theorem C14_capture_wraps_phases :
   In [99; 97; 112; 116; 117; 114; 101]%N (wrapper_names 2).
 Proof. exact capture_wraps_phases. Qed.
 
+(* the real streams over a whole run: per task, in order, exactly what it wrote at a level the
+   method does not capture, then what pytask printed between the tasks - for any task sequence *)
+Theorem C14_terminal_exact : forall m tks st,
+  clean st ->
+  term_out (snd (run_ttasks m tks st)) = term_out st ++ flat_map (term_task m SOut) tks /\
+  term_err (snd (run_ttasks m tks st)) = term_err st ++ flat_map (term_task m SErr) tks.
+Proof. exact run_terminal_exact. Qed.
+
+(* "completely": nothing a task writes is dropped - each code point is in its section text or on
+   the real stream - and "only": neither holds anything that was not written to that stream *)
+Theorem C14_no_loss : forall m s ws x,
+  In x (all_text s ws) -> In x (captured_text m s ws) \/ In x (passthrough_text m s ws).
+Proof. exact write_no_loss. Qed.
+
+Theorem C14_no_invention : forall m s ws x,
+  In x (captured_text m s ws) \/ In x (passthrough_text m s ws) -> In x (all_text s ws).
+Proof. exact write_no_invention. Qed.
+
+(* outside tee mode captured and passed-through text partition what was written (no copy) *)
+Theorem C14_partition : forall m s ws,
+  m <> MTee ->
+  (length (captured_text m s ws) + length (passthrough_text m s ws) = length (all_text s ws))%nat.
+Proof. exact write_partition. Qed.
+
+Example C14_run_example :
+  let w1 := mkW SOut LPy [1;2]%N in let w2 := mkW SOut LFd [3]%N in let w3 := mkW SErr LChild [4]%N in
+  let tks := [mkT 7 [w1] [w2; w1] [w3] [mkW SOut LPy [9]%N]; mkT 8 [] [w1; w3] [] []] in
+  fst (run_ttasks MSys tks init_c) =
+    [(7, PSetup, SOut, [1;2]); (7, PCall, SOut, [1;2]); (8, PCall, SOut, [1;2])]%N /\
+  term_out (snd (run_ttasks MSys tks init_c)) = [3; 9]%N /\
+  term_err (snd (run_ttasks MSys tks init_c)) = [4; 4]%N.
+Proof. exact run_terminal_example. Qed.
+
+Print Assumptions C14_terminal_exact.
+Print Assumptions C14_no_loss.
+Print Assumptions C14_no_invention.
+Print Assumptions C14_partition.
 Print Assumptions C14_sections_exact.
 Print Assumptions C14_phase_spec.
 Print Assumptions C14_fd_captures_everything.
